@@ -118,6 +118,13 @@ impl St {
                 if has("drop_table_inside_session") && k.is_some() {
                     return Some("drop_table_inside_session".into());
                 }
+                if has("drop_of_table_with_pending_drop") {
+                    if let Some(ti) = ti {
+                        if self.model.tables[ti].droppers.iter().any(|d| *d != tx && self.model.txs[*d].status == crate::model::TxStatus::Active) {
+                            return Some("drop_of_table_with_pending_drop".into());
+                        }
+                    }
+                }
                 if has("drop_table_before_crash") && !(has("drop_only_after_checkpoint") && self.after_flush && k.is_none() && !in_batch && self.sess.is_empty()) {
                     return Some("drop_table_before_crash".into());
                 }
@@ -197,7 +204,12 @@ impl St {
             Stmt::CreateTable { .. } if has("create_table_inside_session") && k.is_some() && !matches!(exp, Expect::Fail(_)) => {
                 return Some("create_table_inside_session".into());
             }
-            Stmt::CreateTable { pk, uniques, .. } => {
+            Stmt::CreateTable { name, pk, uniques, .. } => {
+                // the name index of the catalog keeps one entry per name: re-using the name of a dropped
+                // table hides the old table from transactions that can still see it
+                if has("table_name_reuse_while_session_open") && !matches!(exp, Expect::Fail(_)) && (others_active || k.is_some()) && self.model.tables.iter().any(|t| &t.name == name) {
+                    return Some("table_name_reuse_while_session_open".into());
+                }
                 let n = 1 + uniques.len() as u32 + pk.is_some() as u32;
                 if has("more_than_3_relations") && !matches!(exp, Expect::Fail(_)) && self.relations + n > 3 {
                     return Some("more_than_3_relations".into());
